@@ -73,6 +73,12 @@ def fork_results(ex, st, ins, alts):
     return out
 
 
+def rk(st, key):
+    """request-scoped memo key (multi-request harnesses bump st.aux['reqid'])"""
+    n = st.aux.get('reqid', 0)
+    return key if not n else f'#{n}:{key}'
+
+
 def gostr(x):
     return x if (z3.is_expr(x) and z3.is_string(x)) else None
 
@@ -314,7 +320,7 @@ def hdr_get(ex, st, a, ins):
     h = a[0]
     if isinstance(h, Opaque) and h.what == 'resp.Header': return fresh_str(st, 'resp.hdr')
     k = z3.simplify(a[1])
-    key = 'req.Header[' + (k.as_string().lower() if z3.is_string_value(k) else k.sexpr()) + ']'
+    key = rk(st, 'req.Header[' + (k.as_string().lower() if z3.is_string_value(k) else k.sexpr()) + ']')
     if key not in st.memo:
         for pat, fn in ex.hints:
             if pat.search(key):
@@ -343,7 +349,7 @@ def fprintf(ex, st, a, ins):
 
 def req_cookies(ex, st, a, ins):
     """r.Cookies(): bounded symbolic list of cookies (count chosen per path; hint 'req.ncookies')"""
-    key = 'req.ncookies'
+    key = rk(st, 'req.ncookies')
     if key not in st.memo:
         lens = [0, 1, 2]
         for pat, fn in ex.hints:
@@ -353,19 +359,21 @@ def req_cookies(ex, st, a, ins):
         if len(lens) > 1: raise Choice(key, list(lens))
         st.memo[key] = lens[0]
     n = st.memo[key]
-    if 'req.cookies' not in st.memo:
+    ck = rk(st, 'req.cookies')
+    if ck not in st.memo:
         T = ex.ir.typeid('net/http.Cookie'); ptrs = []
+        pre = rk(st, 'cookie')
         for i in range(n):
-            c = StructV(Lazy(f['type'], f'cookie{i}.{f["name"]}') for f in ex.ir.fields(T))
+            c = StructV(Lazy(f['type'], f'{pre}{i}.{f["name"]}') for f in ex.ir.fields(T))
             ptrs.append(Ptr(st.alloc(c)))
-        st.memo['req.cookies'] = ptrs
-    return ex.mkslice(st, st.memo['req.cookies'])
+        st.memo[ck] = ptrs
+    return ex.mkslice(st, st.memo[ck])
 
 
 def req_cookie(ex, st, a, ins):
     """r.Cookie(name): first cookie with that name, else http.ErrNoCookie"""
     sl = req_cookies(ex, st, a, ins)
-    ptrs = st.memo['req.cookies']; T = ex.ir.typeid('net/http.Cookie'); ni = ex.ir.field_index(T, 'Name')
+    ptrs = st.memo[rk(st, 'req.cookies')]; T = ex.ir.typeid('net/http.Cookie'); ni = ex.ir.field_index(T, 'Name')
     alts = []; prev = []
     for p in ptrs:
         nm = ex.field(st, st.heap[p.obj], ni)
@@ -376,7 +384,7 @@ def req_cookie(ex, st, a, ins):
 
 
 def req_basicauth(ex, st, a, ins):
-    return (z3.String('basic.user'), z3.String('basic.pass'), z3.Bool('basic.ok'))
+    return (z3.String(rk(st, 'basic.user')), z3.String(rk(st, 'basic.pass')), z3.Bool(rk(st, 'basic.ok')))
 
 
 def req_parseform(ex, st, a, ins):
@@ -385,7 +393,7 @@ def req_parseform(ex, st, a, ins):
 
 
 def req_formvalue(ex, st, a, ins):
-    k = z3.simplify(a[1]); key = 'req.FormValue[' + (k.as_string() if z3.is_string_value(k) else k.sexpr()) + ']'
+    k = z3.simplify(a[1]); key = rk(st, 'req.FormValue[' + (k.as_string() if z3.is_string_value(k) else k.sexpr()) + ']')
     if key not in st.memo: st.memo[key] = z3.String(key)
     return st.memo[key]
 
@@ -402,7 +410,7 @@ def buf_readfrom(ex, st, a, ins):
     """(*bytes.Buffer).ReadFrom(formfile): the buffer now holds the uploaded bytes (a symbolic string per form file)"""
     src = a[1]
     name = getattr(src.val, 'name', None) if isinstance(src, IfaceV) else None
-    key = f'req.file[{name}]'
+    key = rk(st, f'req.file[{name}]')
     if key not in st.memo: st.memo[key] = z3.String(key)
     st.heap[a[0].obj] = {'buf': st.memo[key]}
     st.counter += 1
